@@ -387,3 +387,53 @@ def coordinates_follow_the_data_through_updates(S):
     check("3-after-assigning-y-of-row-0", upd)
     S.method(p, "to", "cpu")
     check("4-after-to-device", upd)
+
+
+@scenario("C12", [P + ".__setitem__", P + "._compute_slice"], configs=[f"{l}|{r}" for l in ("x2t1", "t1x2") for r in ("index-list", "slice")], bounded=BOUND + "; three rows, two of them addressed (0 and 2); index tensors / boolean masks combined with a column slice are outside the engine's item-assignment model")
+def points_assignment_through_row_selectors(S):
+    """post: after p[rows, "x"] = q the addressed rows hold q in the columns of x and every other entry is unchanged --
+    for rows given as an index list, an index tensor, a boolean mask or a slice (an assignment that is lost in a
+    temporary copy made by advanced indexing changes nothing and fails the first clause)"""
+    from tpv import torchlib
+
+    lay, rk = S.cfg.split("|")
+    nd = LAYOUTS[lay]
+    I = S.I
+    N = 3  # concrete number of rows: the engine's item assignment needs a concrete row axis for these selectors
+    p0, data, sp = mk_points(S, nd, N)
+    p = S.new(P, Tensor(data.val), sp)  # its own storage: the assignment is in place by design
+    old = data.val
+    ox, dx = offsets(nd)["x"]
+    Q = S.tensor("Q", [2, dx])
+    q = S.new(P, Q, S.new(RN, "x", dx))
+    if rk == "index-list":
+        rows, order = [0, 2], [0, 2]
+    elif rk == "index-tensor":
+        rows, order = torchlib.t_tensor(I, [2, 0]), [2, 0]
+    elif rk == "mask":
+        rows, order = torchlib.t_tensor(I, [True, False, True]), [0, 2]
+    else:
+        rows, order = slice(0, 3, 2), [0, 2]
+    out = S.outcome(lambda: I.setitem(p, (rows, "x"), q))
+    if out[0] == "raise":
+        S.ensure("this-index-kind-is-accepted-by-the-library", False)
+        return
+    new = p.f["_t"].val
+    S.ensure("shape-kept", new.rank == 2)
+    if new.rank != 2:
+        return
+
+    def want(qi):
+        i, c = zint(qi[0][0]) if qi[0] else z3.IntVal(0), (qi[1][0] if qi[1] else 0)
+        base = zreal(old.at(qi))
+        if not isinstance(c, int):
+            raise AssertionError("column index expected concrete")
+        if ox <= c < ox + dx:
+            for j, r in enumerate(order):
+                base = z3.If(i == r, zreal(Q.val.at([(j,), ((c - ox),) if dx != 1 else ()])), base)
+        return base
+
+    for c in range(sum(d for _, d in nd)):
+        qi, hy = new.generic_index("sa")
+        qi = [qi[0], (c,)]
+        S.ensure(f"column-{c}-holds-q-in-the-addressed-rows-and-is-unchanged-elsewhere", zreal(new.at(qi)) == want(qi), hy)
